@@ -131,7 +131,7 @@ def wellformed(run, ent, op, parents):
         noop = (op["k"] == "proj" and set(op["cols"]) == set(t.mv.cols)) or \
                (op["k"] == "sort" and not op["terms"]) or \
                (op["k"] == "xfer" and op["to"] == t.mv.engine)
-        if noop and isinstance(t.rel.engine, sql.Engine) and type(t.rel).__name__ == "SimMarker":
+        if noop and isinstance(t.rel.engine, sql.Engine) and type(t.rel).__name__ in ("SimMarker", "SimPinned"):
             noop = False      # a user marker built directly around a SQL relation (not the product of a factory call)
                               # is un-conformed, and is legitimately conformed first
         if noop:
